@@ -722,3 +722,193 @@ impl ExactSizeIterator for TrIter {
         self.rep()
     }
 }
+
+// ------------------------------------------------------------------------------------------
+// Instrumented payload for the delegation contracts of C14: every comparison / hash / format
+// operation records (which op, self address, other address or hasher/formatter address) and
+// returns a value chosen by the harness (symbolic), so "the handle calls the payload's operation
+// exactly once on (&*a, &*b) and returns its answer unchanged" is checked for ALL answers.
+// ------------------------------------------------------------------------------------------
+pub const OP_EQ: usize = 0;
+pub const OP_NE: usize = 1;
+pub const OP_PCMP: usize = 2;
+pub const OP_LT: usize = 3;
+pub const OP_LE: usize = 4;
+pub const OP_GT: usize = 5;
+pub const OP_GE: usize = 6;
+pub const OP_CMP: usize = 7;
+pub const OP_HASH: usize = 8;
+pub const OP_DEBUG: usize = 9;
+pub const OP_DISPLAY: usize = 10;
+pub static mut IP_CALLS: [usize; 11] = [0; 11];
+pub static mut IP_SELF: usize = 0;
+pub static mut IP_OTHER: usize = 0;
+pub static mut IP_BOOL: bool = false;
+pub static mut IP_ORD: u8 = 0; // 0 None, 1 Less, 2 Equal, 3 Greater
+pub static mut IP_FMT_OK: bool = true;
+pub fn ip_total() -> usize {
+    unsafe {
+        let c = &IP_CALLS;
+        c[0] + c[1] + c[2] + c[3] + c[4] + c[5] + c[6] + c[7] + c[8] + c[9] + c[10]
+    }
+}
+pub fn ip_calls(op: usize) -> usize {
+    unsafe { IP_CALLS[op] }
+}
+pub fn ip_only(op: usize) -> bool {
+    ip_calls(op) == 1 && ip_total() == 1
+}
+pub fn ip_args(s: usize, o: usize) -> bool {
+    unsafe { IP_SELF == s && IP_OTHER == o }
+}
+fn ip_rec<A: ?Sized, B: ?Sized>(op: usize, s: &A, o: &B) {
+    unsafe {
+        IP_CALLS[op] += 1;
+        IP_SELF = s as *const A as *const u8 as usize;
+        IP_OTHER = o as *const B as *const u8 as usize;
+    }
+}
+pub fn ip_ord() -> Option<core::cmp::Ordering> {
+    unsafe {
+        match IP_ORD {
+            1 => Some(core::cmp::Ordering::Less),
+            2 => Some(core::cmp::Ordering::Equal),
+            3 => Some(core::cmp::Ordering::Greater),
+            _ => None,
+        }
+    }
+}
+pub struct Ip(pub u8);
+impl PartialEq for Ip {
+    fn eq(&self, o: &Ip) -> bool {
+        ip_rec(OP_EQ, self, o);
+        unsafe { IP_BOOL }
+    }
+    fn ne(&self, o: &Ip) -> bool {
+        ip_rec(OP_NE, self, o);
+        unsafe { IP_BOOL }
+    }
+}
+impl Eq for Ip {}
+impl PartialOrd for Ip {
+    fn partial_cmp(&self, o: &Ip) -> Option<core::cmp::Ordering> {
+        ip_rec(OP_PCMP, self, o);
+        ip_ord()
+    }
+    fn lt(&self, o: &Ip) -> bool {
+        ip_rec(OP_LT, self, o);
+        unsafe { IP_BOOL }
+    }
+    fn le(&self, o: &Ip) -> bool {
+        ip_rec(OP_LE, self, o);
+        unsafe { IP_BOOL }
+    }
+    fn gt(&self, o: &Ip) -> bool {
+        ip_rec(OP_GT, self, o);
+        unsafe { IP_BOOL }
+    }
+    fn ge(&self, o: &Ip) -> bool {
+        ip_rec(OP_GE, self, o);
+        unsafe { IP_BOOL }
+    }
+}
+impl Ord for Ip {
+    fn cmp(&self, o: &Ip) -> core::cmp::Ordering {
+        ip_rec(OP_CMP, self, o);
+        match ip_ord() {
+            Some(x) => x,
+            None => core::cmp::Ordering::Equal,
+        }
+    }
+}
+impl core::hash::Hash for Ip {
+    fn hash<H: core::hash::Hasher>(&self, st: &mut H) {
+        ip_rec(OP_HASH, self, st);
+        st.write_u8(self.0);
+    }
+}
+impl core::fmt::Debug for Ip {
+    fn fmt(&self, f: &mut core::fmt::Formatter) -> core::fmt::Result {
+        ip_rec(OP_DEBUG, self, f);
+        if unsafe { IP_FMT_OK } {
+            Ok(())
+        } else {
+            Err(core::fmt::Error)
+        }
+    }
+}
+impl core::fmt::Display for Ip {
+    fn fmt(&self, f: &mut core::fmt::Formatter) -> core::fmt::Result {
+        ip_rec(OP_DISPLAY, self, f);
+        if unsafe { IP_FMT_OK } {
+            Ok(())
+        } else {
+            Err(core::fmt::Error)
+        }
+    }
+}
+/// recording hasher
+pub struct RecHasher {
+    pub bytes: [u8; 24],
+    pub n: usize,
+}
+impl RecHasher {
+    pub fn new() -> Self {
+        RecHasher { bytes: [0; 24], n: 0 }
+    }
+}
+impl core::hash::Hasher for RecHasher {
+    fn finish(&self) -> u64 {
+        0
+    }
+    fn write(&mut self, b: &[u8]) {
+        let mut i = 0;
+        while i < b.len() {
+            if self.n < 24 {
+                self.bytes[self.n] = b[i];
+            }
+            self.n += 1;
+            i += 1;
+        }
+    }
+    fn write_u8(&mut self, b: u8) {
+        if self.n < 24 {
+            self.bytes[self.n] = b;
+        }
+        self.n += 1;
+    }
+}
+/// formats `x` with {:?} / {} through a formatter whose address is recorded, without `format!`
+pub static mut FMT_ADDR: usize = 0;
+pub struct DbgProbe<'a, T: core::fmt::Debug + 'a>(pub &'a T);
+impl<'a, T: core::fmt::Debug> core::fmt::Debug for DbgProbe<'a, T> {
+    fn fmt(&self, f: &mut core::fmt::Formatter) -> core::fmt::Result {
+        unsafe {
+            FMT_ADDR = f as *const _ as usize;
+        }
+        core::fmt::Debug::fmt(self.0, f)
+    }
+}
+pub struct DispProbe<'a, T: core::fmt::Display + 'a>(pub &'a T);
+impl<'a, T: core::fmt::Display> core::fmt::Display for DispProbe<'a, T> {
+    fn fmt(&self, f: &mut core::fmt::Formatter) -> core::fmt::Result {
+        unsafe {
+            FMT_ADDR = f as *const _ as usize;
+        }
+        core::fmt::Display::fmt(self.0, f)
+    }
+}
+pub struct Sink;
+impl core::fmt::Write for Sink {
+    fn write_str(&mut self, _s: &str) -> core::fmt::Result {
+        Ok(())
+    }
+}
+pub fn debug_ok<T: core::fmt::Debug>(x: &T) -> bool {
+    use core::fmt::Write;
+    write!(Sink, "{:?}", DbgProbe(x)).is_ok()
+}
+pub fn display_ok<T: core::fmt::Display>(x: &T) -> bool {
+    use core::fmt::Write;
+    write!(Sink, "{}", DispProbe(x)).is_ok()
+}
